@@ -103,6 +103,9 @@ pub struct Scenario {
     pub validity: (Option<u64>, Option<u64>),
     pub slot_config: (u64, u64, u32),
     pub with_cost_models: bool,
+    /// Cost models supplied, except for this Plutus version (1, 2 or 3).
+    #[serde(default)]
+    pub missing_cost_model: Option<u8>,
     pub protocol: Option<u16>,
     pub budget: BudgetChoice,
     pub drop: Drop,
@@ -515,6 +518,17 @@ fn pallas_crypto_hash28(b: &[u8; 28]) -> pallas_crypto::hash::Hash<28> {
     pallas_crypto::hash::Hash::from(*b)
 }
 
+fn cost_models_for(sc: &Scenario) -> CostModels {
+    let mut cm = cost_models();
+    match sc.missing_cost_model {
+        Some(1) => cm.plutus_v1 = None,
+        Some(2) => cm.plutus_v2 = None,
+        Some(3) => cm.plutus_v3 = None,
+        _ => {}
+    }
+    cm
+}
+
 fn cost_models() -> CostModels {
     CostModels {
         plutus_v1: Some(BuiltinCosts::DEFAULT_V1.to_vec()),
@@ -643,6 +657,13 @@ fn expected(sc: &Scenario, asm: &Assembled, steps: &[RefStep]) -> Expected {
     if !asm.dropped.is_empty() {
         return Expected::MustFail(asm.dropped.clone());
     }
+    if sc.with_cost_models {
+        if let Some(v) = sc.missing_cost_model {
+            if sc.scripts.iter().any(|s| s.version == v) {
+                return Expected::MustFail(format!("cost-model:v{v}"));
+            }
+        }
+    }
     let budget = initial_budget(&sc.budget, steps).unwrap_or_default();
     let mut remaining = budget;
     let mut map = BTreeMap::new();
@@ -706,7 +727,7 @@ pub fn execute(sc: &Scenario) -> Result<Outcome, String> {
         zero_slot: sc.slot_config.1,
         slot_length: sc.slot_config.2,
     };
-    let cm = cost_models();
+    let cm = cost_models_for(sc);
     let budget = initial_budget(&sc.budget, &steps);
     let result = guard(|| match sc.protocol {
         Some(pv) => eval_phase_two_with_protocol(
@@ -833,7 +854,7 @@ fn answer(sc: &Scenario) -> Result<String, String> {
     let asm = assemble(sc)?;
     let tx: MintedTx = MintedTx::decode_fragment(&asm.tx_bytes).map_err(|e| format!("{e}"))?;
     let slot = SlotConfig { zero_time: sc.slot_config.0, zero_slot: sc.slot_config.1, slot_length: sc.slot_config.2 };
-    let cm = cost_models();
+    let cm = cost_models_for(sc);
     let big = ExBudget { cpu: 1_000_000_000_000, mem: 1_000_000_000_000 };
     let res = guard(|| eval_phase_two(&tx, &asm.utxos, if sc.with_cost_models { Some(&cm) } else { None }, Some(&big), &slot, sc.run_phase_one, noop));
     Ok(match res {
@@ -844,8 +865,14 @@ fn answer(sc: &Scenario) -> Result<String, String> {
             format!("ok {v:?}")
         }
         Ok(Err(e)) => {
-            let d = format!("{e:?}");
-            format!("err {}", d.split(['(', ' ', '{']).next().unwrap_or(""))
+            // With the redeemers delivered in another order a transaction that has several
+            // reasons to fail may legitimately meet another one first: only the verdict counts.
+            if sc.permute_redeemers != 0 {
+                "err".to_string()
+            } else {
+                let d = format!("{e:?}");
+                format!("err {}", d.split(['(', ' ', '{']).next().unwrap_or(""))
+            }
         }
     })
 }
@@ -935,6 +962,7 @@ fn gen_scenario(rng: &mut Rng) -> Scenario {
         validity: (lower, upper),
         slot_config,
         with_cost_models: rng.chance(1, 2),
+        missing_cost_model: if rng.chance(1, 8) { Some(1 + rng.below(3) as u8) } else { None },
         protocol: if rng.chance(1, 2) { Some(rng.range(8, 11) as u16) } else { None },
         budget,
         drop,
@@ -1094,6 +1122,12 @@ impl Engine for TxEngine {
                     let a = answer(&p);
                     ctx.stats.inc("permutations", 1);
                     ctx.stats.inc("evaluations", 1);
+                    let base = if p.permute_redeemers != 0 {
+                        // compare verdicts only (see `answer`)
+                        base.clone().map(|b| if b.starts_with("err") { "err".to_string() } else { b })
+                    } else {
+                        base.clone()
+                    };
                     if a != base {
                         violations.push((
                             "order-dependent".into(),
@@ -1154,6 +1188,7 @@ impl Engine for TxEngine {
                 base.permute_witnesses = 0;
                 base.permute_redeemers = 0;
                 let (a, b) = (answer(&base), answer(&sc));
+                let a = if sc.permute_redeemers != 0 { a.map(|x| if x.starts_with("err") { "err".to_string() } else { x }) } else { a };
                 if a != b {
                     violations.push(("order-dependent".into(), format!("{a:?} vs {b:?}")));
                 }
